@@ -106,6 +106,7 @@ func runC16(c *Ctx) {
 	c16OwnAttributes(c)
 	c16OptionalOnlyWhenAbsent(c)
 	c16DeprecatedIffDirective(c)
+	c16Stateless(c)
 }
 
 // c16OptionalOnlyWhenAbsent: the helper that renders a default value returns "absent" (nil) only when the schema node has no default.
@@ -436,4 +437,19 @@ func nilIffNoDeprecation(h *ssa.Function) bool {
 		}
 	}
 	return n > 0
+}
+
+
+// c16Stateless: what introspection reports is a function of the schema alone.  Package introspection keeps no package-level
+// state that is written while serving: a process-wide cache of wrapped fields/types would be shared by every request (and every
+// schema) and any in-place filtering of what it holds — dropping deprecated entries for one listing — changes what later
+// listings of the same type report.
+func c16Stateless(c *Ctx) {
+	c.R.Rule("stateless-introspection", "no function of package graphql/introspection (outside package initialisation) stores to a package-level variable, updates a package-level map or calls a mutating method of a package-level sync.Map", 1)
+	ws := c.globalWritesIn(pkgIntrosp)
+	for _, w := range ws {
+		c.R.Bad(w[0], w[1], "package introspection keeps process-wide mutable state: what one introspection request does to it (e.g. filtering deprecated fields in place) is seen by every later request, so the description no longer mirrors the schema")
+	}
+	n := len(c.moduleFuncs(func(p string) bool { return p == pkgIntrosp }))
+	c.R.Check(n > 20, "introspection/scan", "graphql/introspection", sprintf("%d functions scanned, %d package-level writes", n, len(ws)), "package introspection not loaded")
 }
